@@ -381,3 +381,138 @@ def closure_shared_objects(repo: Repo, modules: Iterable[str]) -> List[str]:
                         probs.append('%s:%s: the nested function %s %s (line %d), but %r is created once, at line %d of the enclosing '
                                      'function, and shared by every later call' % (m, outer.name, d.name, how, n.lineno, name, created[name]))
     return sorted(set(probs))
+
+
+# modules whose functions carry the behaviour of each property (its anchors and what they call)
+MEMO_SCOPE = {
+    'C01': ('pdu', 'userdataitems'), 'C02': ('pdu', 'userdataitems'), 'C03': ('dulprovider',), 'C04': ('fsm',),
+    'C05': ('fsm', 'dulprovider'), 'C06': ('dimsemessages', 'dsutils', 'pdu'), 'C07': ('fsm', 'applicationentity', '__init__', 'dsutils'),
+    'C08': ('dimsemessages', 'dsutils', 'asceprovider'), 'C09': ('asceprovider', 'applicationentity'),
+    'C10': ('asceprovider', 'dimsemessages', 'dulprovider'), 'C11': ('asceprovider', 'applicationentity'),
+    'C12': ('fsm', 'dulprovider', 'pdu', 'userdataitems'), 'C13': ('fsm', 'dulprovider', 'asceprovider'),
+    'C14': ('asceprovider', 'fsm', 'pdu'), 'C15': ('sopclass', 'applicationentity', '__init__', 'dsutils', 'dimsemessages'),
+    'C16': ('sopclass', 'dsutils', 'statuses'), 'C17': ('sopclass', 'dimsemessages', 'dsutils'), 'C18': ('statuses',),
+    'C19': ('sopclass', 'dsutils', 'statuses'),
+    'C20': ('__init__', 'applicationentity', 'asceprovider', 'dulprovider', 'fsm', 'sopclass', 'dsutils', 'dimsemessages', 'statuses'),
+}
+
+
+def memo_rule(repo: Repo, rep, prop: str, rule: str):
+    """``rule``: every cache in the modules the property lives in is filed under a key that determines the cached value"""
+    from .memo import find_memos, missing_inputs
+    rep.rule(rule, 'results that are kept for re-use (a dict of results, a last-key / last-value pair, a named slot of a holder object) '
+             'are filed under a key that determines them: every input of the cached value is part of the key, a module-level name, '
+             'or an attribute of the cache\'s owner that only constructors set -- otherwise a later call with the same key and a '
+             'different input is answered from the cache', 1)
+    probs = []
+    n_f = n_m = 0
+    for modname in MEMO_SCOPE[prop]:
+        if modname not in repo.modules:
+            continue
+        for fi in repo.all_functions():
+            if fi.module.name != modname:
+                continue
+            n_f += 1
+            for m in find_memos(fi.node):
+                n_m += 1
+                miss = missing_inputs(repo, fi, m)
+                if miss:
+                    probs.append('%s (line %d) keeps its result in %s under the key %s, but the result also depends on %s: a call that '
+                                 'differs only there gets the result of an earlier one'
+                                 % (fi.qualname, m.line, m.store, ast.unparse(m.key), ', '.join(miss)))
+    rep.check(not probs, rule, '%s:caches' % '+'.join(MEMO_SCOPE[prop]), '', '%d functions, %d cache(s), keys complete' % (n_f, n_m),
+              '; '.join(probs))
+
+
+def writer_reuse_problems(repo: Repo) -> Tuple[List[str], List[str], int]:
+    """The buffers ``dsutils`` hands to pydicom's writers.  A buffer created in the call is fresh.  One that outlives the call --
+    an attribute of a module-level object, the result of a cached factory -- is (a) written by whichever thread encodes, so its
+    holder must be per-thread (``threading.local`` or a subclass; a ``functools.lru_cache`` is per process), and (b) may hold what
+    an earlier call that ended in an exception left behind, so it must be emptied (``seek(0)`` and ``truncate()``) before the
+    first write of the call on every path.  -> (sharing problems, staleness problems, number of write sites examined)"""
+    from .fsm_model import exc_hierarchy
+    from .sym import SymClient, empty_state, is_token
+    ds = repo.module('dsutils')
+    share, stale = [], []
+    n_w = 0
+    # factories kept by a process-wide cache
+    cached_factories = {}
+    for fi in repo.all_functions():
+        if fi.module.name != 'dsutils':
+            continue
+        decos = [ast.unparse(d).split('(')[0] for d in fi.node.decorator_list]
+        if any(d.split('.')[-1] in ('lru_cache', 'cache') for d in decos):
+            makes_object = any(isinstance(n, ast.Return) and n.value is not None and (
+                isinstance(n.value, ast.Call) or isinstance(n.value, ast.Name)) for n in ast.walk(fi.node))
+            if makes_object:
+                cached_factories[fi.name] = fi
+
+    def thread_local_root(name: str) -> Optional[bool]:
+        vals = ds.assigns.get(name)
+        if not vals or len(vals) != 1 or not isinstance(vals[0], ast.Call):
+            return None
+        fn = ast.unparse(vals[0].func)
+        if fn in ('threading.local', 'local'):
+            return True
+        k = ds.classes.get(fn)
+        if k is not None:
+            return any(b.split('.')[-1] == 'local' for b in k.all_ext_bases())
+        return False
+
+    def ev(call, callee, client, state):
+        last = callee.rsplit('.', 1)[-1]
+        if last in ('write_dataset', 'write_data_element'):
+            return 'write'
+        if last == 'seek' and call.args and isinstance(call.args[0], ast.Constant) and call.args[0].value == 0:
+            return 'rewind'
+        if last == 'truncate':
+            return 'truncate'
+        if last in cached_factories:
+            return 'cached-factory'
+        return None
+    for fname in ('encode', 'encode_element'):
+        try:
+            f = repo.func('dsutils', fname)
+        except AnalysisError:
+            continue
+        c = SymClient(repo, f, event_of=ev, hierarchy=exc_hierarchy(repo),
+                      inline=lambda fi_: repo.is_helper(fi_) and fi_.name not in cached_factories)
+        c.run(empty_state())
+        for e, s in c.log:
+            if e.kind != 'write' or not e.args:
+                continue
+            n_w += 1
+            buf = e.args[0]
+            if is_token(buf) or buf.startswith('NEW_'):
+                continue
+            try:
+                be = ast.parse(buf, mode='eval').body
+            except SyntaxError:
+                be = None
+            root = buf.split('(')[0].split('.')[0].split('[')[0]
+            if isinstance(be, ast.Call) and isinstance(be.func, ast.Name) and be.func.id == 'getattr' and be.args:
+                r_ = be.args[0]
+                while isinstance(r_, ast.Attribute):
+                    r_ = r_.value
+                root = r_.id if isinstance(r_, ast.Name) else root
+            elif isinstance(be, ast.Call) and not any(nm in ast.unparse(be.func) for nm in cached_factories):
+                continue            # built by a call made in this very call: a new object
+            if any(x.kind == 'cached-factory' for x in s.trail) and any(nm in buf for nm in cached_factories):
+                share.append('%s writes into the buffer returned by %s, which functools keeps one per argument tuple for the whole process: '
+                             'the provider threads and the service threads encode into the same buffer at the same time'
+                             % (fname, [nm for nm in cached_factories if nm in buf][0]))
+                continue
+            tl = thread_local_root(root) if root in ds.assigns else None
+            if tl is False:
+                share.append('%s writes into %s, an object shared by all threads' % (fname, buf))
+            elif tl is None and root not in f.params:
+                share.append('%s writes into %s, whose holder is not known to be per-thread' % (fname, buf))
+            before = list(s.trail)
+            bases = (buf, buf + '.parent')
+            rew = [x for x in before if x.kind == 'rewind' and x.callee.rsplit('.', 1)[0] in bases]
+            tru = [x for x in before if x.kind == 'truncate' and x.callee.rsplit('.', 1)[0] in bases]
+            if not (rew and tru):
+                stale.append('%s writes into the re-used buffer %s without emptying it first (seek(0) and truncate() before the write, on this '
+                             'path: %s): what an earlier encode that failed half-way wrote is still in it and is returned in front of the '
+                             'new bytes' % (fname, buf, 'rewound only' if rew else 'truncated only' if tru else 'neither'))
+    return sorted(set(share)), sorted(set(stale)), n_w
